@@ -32,7 +32,7 @@ ASSUMPTIONS = [
     "graphs with <=5 blocks along the reduced axis (quick) / <=6 (thorough); a cap on ideals is reported if hit",
     "digest = structural hash of arrays (dtype, shape, bytes), dicts, tuples, pandas indexes, dataclasses",
     "the per-call copy of the aggregation embedded in the graph is a task constant, not an input (its mutation is covered by re-execution)",
-    "interleavings of concurrently running tasks are explored by the E4 leg (two tasks, line granularity)",
+    "interleavings: two concurrently running tasks sharing an input, every flox source line a switch point, preemption bound 1 (quick) / 2 at call granularity (thorough)",
 ]
 
 
@@ -55,6 +55,10 @@ def shards(tier, seed):
     out = [dict(cfg=c, max_states=bounds(tier, seed)["max_states"]) for c in configs(tier)]
     out.sort(key=lambda s: -len(s["cfg"]["chunks"]) * s["cfg"].get("batch_blocks", 1))
     out += [dict(interference=i) for i in range(len(interference_pairs()))]
+    # interleavings of two tasks sharing an input (E4): every flox source line of either task is tried as the preemption point
+    from mc import ilv
+
+    out += [dict(threads=True, **s) for s in ilv.shards(tier, 1 if tier == "quick" else 2)]
     return out
 
 
@@ -180,6 +184,11 @@ def interference_pairs():
 def run_shard(shard):
     e1.reset_flox_caches()
     res = Result()
+    if shard.get("threads"):
+        from mc import ilv
+
+        ilv.run(res, shard)
+        return res
     if shard.get("interference") is not None:
         a, b = interference_pairs()[shard["interference"]]
         run_interference(res, a, b)
@@ -194,6 +203,11 @@ def replay(payload):
     cfg = c.get("cfg", c)
     from mc.runner import unjson_float
 
+    if "schedule" in c or "pair" in c:
+        from mc import ilv
+
+        ilv.replay(res, c)
+        return res
     if "then" in c:
         run_interference(res, dict(cfg, labels=unjson_float(cfg["labels"])), dict(c["then"], labels=unjson_float(c["then"]["labels"])))
         return res
